@@ -67,6 +67,7 @@ void case_impl(Ctx &c, bool late, bool many = false) {
     else if (issync && mode == 3 && rp_pending) { CHECK(c, after == rp_val, "sync-applies-rpdo-once", "SYNC did not apply the buffered synchronous RPDO (object %02X, expected %02X)", after, rp_val); rp_pending = false; }
     else CHECK(c, after == before, "sync-applies-rpdo-once", "%s changed the RPDO-mapped object from %02X to %02X without a new reception", issync ? "a SYNC" : "a non-SYNC frame", before, after);
   };
+  if (many) { s.rx(Frame::mk(0, 2, {1, 0})); mode = 3; synccnt = 0; s.clear_tx(); s.clear_ev(); VLOG(c, "NMT -> mode 3"); }   // mode many-syncs starts in OPERATIONAL
   int steps = 0; uint32_t longest_run = 0;
   while (!c.t.exhausted() && steps < 200) {
     steps++; c.ops++;
@@ -121,8 +122,8 @@ void case_impl(Ctx &c, bool late, bool many = false) {
       if (mode == 3) { rp_pending = true; rp_maybe = false; rp_val = v; }
       VLOG(c, "synchronous RPDO frame with %02X", v);
     } else if (op == 9) { // mode many-syncs: a run of k SYNCs with nothing in between - the n-th-SYNC rule must hold beyond 255 and 65535 SYNCs of one OPERATIONAL phase
-      static const uint32_t MARK[5] = {250, 256, 300, 512, 770}; uint32_t kk = c.t.below(16);
-      uint32_t k = kk < 9 ? MARK[c.t.below(5)] + c.t.below(8) : kk == 9 ? 65530 + c.t.below(600) : 1 + c.t.below(300);
+      static const uint32_t MARK[5] = {250, 256, 300, 512, 770}; uint32_t kk = c.t.below(32);
+      uint32_t k = kk < 18 ? MARK[c.t.below(5)] + c.t.below(8) : kk == 18 ? 65530 + c.t.below(600) : 1 + c.t.below(300);
       VLOG(c, "run of %u SYNCs", k);
       for (uint32_t i = 0; i < k; i++) { s.clear_tx(); s.clear_ev(); quiet = i >= 2; frame(mcob & 0x1FFFFFFFu, 0); } quiet = false;
       if (mode == 3 && k > longest_run) longest_run = k;
